@@ -54,6 +54,9 @@ CHECKS = {
  "C16": ("exhaustive enumeration of all (scalar,point) lists of length 0..3 over a 30-48 entry alphabet (longer lists over a sub-alphabet) x both variants x receiver placements x repeated-pointer patterns; DoubleScalarMultBasepointVartime over scalar pairs x points incl. cancelling / doubling combinations; against the reference sum",
          "Bounded exhaustive exploration of multi-scalar multiplication: every list up to length 3 over scalars {0,1,2,n-1,15,16,s,-s} x points {inf,G,-G,2G,P,P with Z != 1} (so partial sums pass through the identity and through doublings), for MultiScalarMult and MultiScalarMultVartime, with the receiver fresh or equal to each list entry and with equal entries sharing one object or not; mismatched lengths must panic; u1*G+u2*P for all pairs of a scalar alphabet x points, plus constructed u1*G = -+u2*P, receiver distinct and aliasing P.",
          "Trusted: /verif/ref. Lists longer than 3 only over a 9-entry sub-alphabet (stated).", "DESIGN.md §6 C16"),
+ "C17": ("2-safety by exhaustive enumeration over a secret alphabet on the source-instrumented real code: one control-flow / index trace (ordered basic blocks, function entries, every non-literal index value) per secret-handling operation, in both build configurations",
+         "Self-composition by enumeration on the instrumented implementation: every .go file of the library packages is rewritten at check time (go/ast) so that each basic block, function entry and non-literal index expression reports to an injected monitor; 51 secret-handling operations (field/scalar arithmetic, ScalarMult with secret scalar and with secret point, ScalarBaseMult, MultiScalarMult of length 1..3, key import/derivation, ECDH, ECDSA Sign under constant and RFC 6979 entropy with three option sets, Schnorr key derivation and signing) are run for every secret of the alphabet with public co-inputs fixed; all traces of an operation must be identical, per-block counters equal, and no function whose name contains Vartime may be entered. Runs for the assembly and the purego build.",
+         "Trusted: the instrumenter (/verif/instr). Not visible: the SSE2 assembly itself (tied to the portable code by C19), instruction-level timing, compiler-introduced branches, stdlib/x-crypto/tuplehash code. Path equality over an alphabet is evidence for all secrets only insofar as the alphabet spans the secret-dependent decisions (GLV sign classes, zero/F nibbles, leading-zero halves, 1, n-1).", "DESIGN.md §6 C17"),
 }
 
 PENDING_REASON = "check under construction in this round; not yet claimed (see DESIGN.md §6 for the planned bounded-exhaustive check)"
